@@ -256,13 +256,21 @@ class HandGen:
                     if share:
                         self.taken = set(saved)
                     bavail, bconds = list(avail), list(conds)
+                    binits = []
+                    if rng.random() < 0.4:
+                        # an initializer OWNED BY THE BODY (renamed with the body's other names)
+                        bi = self.fresh()
+                        binits.append(NH.from_array(self.arr(), bi))
+                        bavail.append(bi)
+                        self.features.add("body-initializer")
                     bnodes = self.body(bavail, bconds, depth + 1, node_names, rng.randrange(1, 3))
-                    local = [v for v in bavail if v not in avail]
+                    local = [v for v in bavail if v not in avail and v not in [t.name for t in binits]]
                     res = rng.choice(local) if local and rng.random() < 0.8 else None
                     if res is None:
                         res = self.fresh()
                         bnodes.append(H.make_node("Identity", [rng.choice(bavail)], [res]))
-                    g = H.make_graph(bnodes, bname + "_g", [], [_vi(res, self.elem, None if rng.random() < 0.3 else self.shape)])
+                    g = H.make_graph(bnodes, bname + "_g", [], [_vi(res, self.elem, None if rng.random() < 0.3 else self.shape)],
+                                     initializer=binits)
                     branches.append(g)
                     all_taken |= self.taken
                 self.taken = all_taken
@@ -279,6 +287,12 @@ class HandGen:
                 it, ci, xi, co = self.fresh(), self.fresh(), self.fresh(), self.fresh()
                 nodes.append(H.make_node("Constant", [], [mname], value=NH.from_array(np.array(rng.randrange(1, 4), np.int64), mname)))
                 bavail, bconds = [xi] + list(avail), list(conds)
+                linits = []
+                if rng.random() < 0.4:
+                    li = self.fresh()
+                    linits.append(NH.from_array(self.arr(), li))
+                    bavail.append(li)
+                    self.features.add("body-initializer")
                 bnodes = [H.make_node("Identity", [ci], [co])]
                 bnodes += self.body(bavail, bconds, depth + 1, node_names, rng.randrange(1, 4))
                 local = [v for v in bavail if v not in avail and v != xi]
@@ -286,7 +300,7 @@ class HandGen:
                 bnodes.append(H.make_node(rng.choice(["Add", "Sub"]), [xi, rng.choice(local or bavail)], [xo]))
                 bg = H.make_graph(bnodes, "loop_body",
                                   [_vi(it, TP.INT64, []), _vi(ci, TP.BOOL, []), _vi(xi, self.elem, self.shape)],
-                                  [_vi(co, TP.BOOL, []), _vi(xo, self.elem, self.shape)])
+                                  [_vi(co, TP.BOOL, []), _vi(xo, self.elem, self.shape)], initializer=linits)
                 nodes.append(H.make_node("Loop", [mname, "", rng.choice(avail)], [out], name=self.node_name(out, node_names), body=bg))
                 avail.append(out)
                 self.features.add("loop-body-captures-outer")
@@ -444,10 +458,22 @@ def spox_program(rng: random.Random, library: list[onnx.ModelProto], version: Op
             feats.add("subgraph-captures-outer")
             a, b = rng.choice(vals), rng.choice(vals)
             u = rng.choice(["abs", "neg"])
+            how = rng.choice(["const", "initializer-inside", "initializer-outside-used-inside"])
+            w_out = initializer(np.array([rng.randrange(1, 4), 0.5], np.float32)) if how == "initializer-outside-used-inside" else None
+            if how != "const":
+                feats.add("body-initializer")  # spox puts an initializer used only in a body into the body's graph
+
+            def factor():
+                if how == "const":
+                    return op.const(np.array([2.0, 2.0], np.float32))
+                if how == "initializer-inside":
+                    return initializer(np.array([2.0, 3.0], np.float32))
+                return w_out
+
             (r,) = op.if_(
                 cond,
                 then_branch=lambda: [getattr(op, u)(op.add(a, b))],
-                else_branch=lambda: [op.mul(a, op.const(np.array([2.0, 2.0], np.float32)))],
+                else_branch=lambda: [op.mul(a, factor())],
             )
             return r
         if k < 0.95 and library:
